@@ -11,7 +11,8 @@ What is extracted
                        splitext()[1].lower().strip('.')), the two ValueError exits, per file type the opener and the
                        `structured` flag it sets
   conversion.py        set_filetype of the four converter classes; the file-type branch of SeismicFileConverter.run
-                       (store_headers); a CENSUS of every mention of `filetype` / `Filetype` in conversion.py,
+                       (store_headers); the window crop of the generated ZGY header arrays in get_blank_header_info
+                       (which slice of rows / columns is kept, in terms of geom.ilines / geom.xlines); a CENSUS of every mention of `filetype` / `Filetype` in conversion.py,
                        conversion_utils.py and headers.py (the producers, the compressor, the writer, make_header and
                        run_conversion_loop must not mention it: route independence of the data path)
   conversion_utils.py  make_header_seismic_file: the per-file-type branch (SEG-Y: file-header copy; ZGY: the two doubles:
@@ -378,6 +379,53 @@ def gen_conversion(srcdir, out, val):
     t = U(ifs[0].test)[len(pre):]
     out.append("(* SeismicFileConverter.run: store_headers = not(header_detection == 'strip'); if seismic.filetype == Filetype.%s: store_headers = False *)" % t)
     out.append(f'Definition run_store_headers (ft : Z) (strip : bool) : bool := if ft =? ft_{t} then false else negb strip.')
+    # get_blank_header_info, heuristic branch: the window crop of the generated ZGY arrays (D54 repair)
+    gb = find_def(tree, 'SeismicFileConverter.get_blank_header_info')
+    hb = [n for n in ast.walk(gb) if isinstance(n, ast.If) and U(n.test) == "header_detection == 'heuristic'"]
+    need(len(hb) == 1, "get_blank_header_info: `if header_detection == 'heuristic'` not found")
+    hs = hb[0].body
+    need(len(hs) == 3 and U(hs[0]) == 'header_info = HeaderwordInfo(n_traces=n_traces, seismicfile=seismic, header_detection=header_detection)'
+         and U(hs[2]) == 'return header_info' and isinstance(hs[1], ast.If) and not hs[1].orelse,
+         'get_blank_header_info: heuristic branch changed shape')
+    pre = 'seismic.filetype == Filetype.'
+    need(U(hs[1].test).startswith(pre) and U(hs[1].test)[len(pre):] in val, 'get_blank_header_info: crop condition: ' + U(hs[1].test))
+    ct = U(hs[1].test)[len(pre):]
+    cb = hs[1].body
+    need(len(cb) == 2 and isinstance(cb[0], ast.Assign) and isinstance(cb[0].targets[0], ast.Tuple) and isinstance(cb[0].value, ast.Tuple)
+         and all(isinstance(e, ast.Name) for e in cb[0].targets[0].elts), 'crop: axis names: ' + U(cb[0]))
+    axn = {}
+    for nm, v in zip(cb[0].targets[0].elts, cb[0].value.elts):
+        need(U(v) in ('self.geom.ilines', 'self.geom.xlines'), 'crop: axis source ' + U(v))
+        axn[nm.id] = 'gi' if U(v) == 'self.geom.ilines' else 'gx'
+    need(sorted(axn.values()) == ['gi', 'gx'], 'crop: both geometry axes expected')
+    lp = cb[1]
+    need(isinstance(lp, ast.For) and U(lp.target) == '(hw, array)' and U(lp.iter) == 'header_info.headers_dict.items()' and len(lp.body) == 1
+         and not lp.orelse, 'crop: loop over headers_dict changed: ' + U(lp)[:80])
+    asg = lp.body[0]
+    need(isinstance(asg, ast.Assign) and U(asg.targets[0]) == 'header_info.headers_dict[hw]' and isinstance(asg.value, ast.Call)
+         and U(asg.value.func) == 'np.ascontiguousarray' and len(asg.value.args) == 1 and not asg.value.keywords, 'crop: assignment changed: ' + U(asg))
+    sub = asg.value.args[0]
+    need(isinstance(sub, ast.Subscript) and U(sub.value) == 'array' and isinstance(sub.slice, ast.Tuple) and len(sub.slice.elts) == 2,
+         'crop: array[rows, cols] expected: ' + U(sub))
+
+    def bound(node, what):
+        # A[0] -> first element of the axis, A[-1] + 1 -> last element + 1, A[-1] -> last element
+        if isinstance(node, ast.BinOp) and isinstance(node.op, ast.Add) and isinstance(node.right, ast.Constant) and type(node.right.value) is int:
+            return f'({bound(node.left, what)} + {node.right.value})'
+        need(isinstance(node, ast.Subscript) and isinstance(node.value, ast.Name) and node.value.id in axn, f'crop {what}: {U(node)}')
+        k = int_const(node.slice, 'crop ' + what)
+        need(k in (0, -1), f'crop {what}: index {k}')
+        return axn[node.value.id] + ('0' if k == 0 else 'l')
+    crop = []
+    for nm, sl in zip(('row', 'col'), sub.slice.elts):
+        need(isinstance(sl, ast.Slice) and sl.step is None and sl.lower is not None and sl.upper is not None, f'crop {nm}: lo:hi expected: ' + U(sl))
+        crop.append((nm, bound(sl.lower, nm), bound(sl.upper, nm)))
+    out.append('(* get_blank_header_info, heuristic: for a source of this file type every generated header array (rows, cols) is replaced by')
+    out.append('   np.ascontiguousarray(array[row_lo:row_hi, col_lo:col_hi]); gi0 / gil = first / last element of geom.ilines, gx0 / gxl of geom.xlines *)')
+    out.append(f'Definition zgy_crop_filetype : Z := ft_{ct}.')
+    for nm, lo, hi in crop:
+        out.append(f'Definition zgy_crop_{nm}_lo (gi0 gil gx0 gxl : Z) : Z := {lo}.')
+        out.append(f'Definition zgy_crop_{nm}_hi (gi0 gil gx0 gxl : Z) : Z := {hi}.')
     out.append('')
 
 
@@ -385,7 +433,8 @@ def gen_conversion(srcdir, out, val):
 def gen_census(srcdir, out):
     """every mention of the file type on the writer side, by enclosing function"""
     expected = {
-        'conversion': {'SeismicFileConverter.__init__': 3, 'SeismicFileConverter.check_input_file_exists': 2, 'SeismicFileConverter.run': 3,
+        'conversion': {'SeismicFileConverter.__init__': 3, 'SeismicFileConverter.get_blank_header_info': 2,
+                       'SeismicFileConverter.check_input_file_exists': 2, 'SeismicFileConverter.run': 3,
                        'SegyConverter.set_filetype': 1, 'ZgyConverter.set_filetype': 1, 'VdsConverter.set_filetype': 1, '<module>': 1},
         'conversion_utils': {'make_header_seismic_file': 5, '<module>': 1},
         'headers': {'HeaderwordInfo.__init__': 5, '<module>': 1},
